@@ -3,6 +3,7 @@
    view and, for the caller's model object, what it looks like afterwards. -/
 import Driver.CoreWire
 import MxlVerif.Model.C09Workers
+import MxlVerif.Model.C09Par
 open Lean Mxl Mxl.Wire Mxl.C09
 namespace Driver.H_c09
 
@@ -13,7 +14,8 @@ def jCfg (j : Json) : Except String EulerCfg := do
          failKeys := ← jList jRat (← field j "fail"),
          tol := ← match fieldD j "tol" .null with
            | .null => pure none
-           | v => do pure (some (← jRat v)) }
+           | v => do pure (some (← jRat v)),
+         raiseKeys := ← jList jRat (fieldD j "raise" (.arr #[])) }
 
 def jProto (j : Json) : Except String Protocol := jList (jPair jRat jRow) j
 
@@ -59,6 +61,9 @@ def runScan (j : Json) : Except String (Except Err Json) := do
   let y0 ← match fieldD j "y0" .null with
     | .null => pure none
     | v => do pure (some (← jRow v))
+  let cache? ← match fieldD j "cache" .null with
+    | .null => pure none
+    | v => do pure (some (← jStr v))
   let order? ← match fieldD j "order" .null with
     | .null => pure none
     | v => do pure (some (← jList jNat v))
@@ -68,10 +73,22 @@ def runScan (j : Json) : Except String (Except Err Json) := do
       | none => pure c0
       | some kv => updateVars c0 kv
     let h0 : Heap := [c]
-    let (h1, res) ← match mode with
-      | "seq" => seqScan w h0 0 rows
-      | "legacy" => seqScanWith false w h0 0 rows
-      | _ => parScan assign n w h0 0 rows
+    let (h1, res) ← match cache?, mode with
+      | none, "seq" => seqScan w h0 0 rows
+      | none, "legacy" => seqScanWith false w h0 0 rows
+      | none, _ => parScan assign n w h0 0 rows
+      | some kind, _ =>
+        -- `cache=Cache(tmp_dir)`: an empty directory ("fresh"), or one filled by running the same scan once ("warm")
+        let sched : Sched := { assign, n, timedOut := [] }
+        let run (h : Heap) (st : Option (Store Pickled)) := scanWith shippedCopyFirst (mode != "seq") sched w h 0 rows st
+        let (hA, st0) ← (if kind == "warm" then
+            match run h0 (some []) with
+            | (.ok (h', _), st) => pure (h', st)
+            | (.error e, _) => throw e
+          else pure (h0, some []) : Except Err (Heap × Option (Store Pickled)))
+        match run hA st0 with
+        | (.ok r, _) => pure r
+        | (.error e, _) => throw e
     -- containers
     let entries : List (Json × Sim) ←
       if kind == "ss" then do
@@ -92,7 +109,47 @@ def runScan (j : Json) : Except String (Except Err Json) := do
         | some idx => (iv.2.segs.flatMap fun rows => rows.map (·.1)) == idx
     pure (Json.mkObj [("res", .arr out.toArray), ("caller", stateJ caller), ("grid_ok", .bool gridOk)])
 
+/-- `"what": "parallelise"`: `parallel.parallelise` itself over the toy function of `harness/c09lib.py::toy_fn`
+    (`x < 0` raises `ValueError`, else `2·x`); the cache directory before the call, the mode, the schedule and the
+    positions that exceed the timeout are inputs; the answer is the returned list (or the exception) and the keys of the
+    directory afterwards -/
+def runPar (j : Json) : Except String Json := do
+  let inputs ← jList (jPair jNat jRat) (← field j "inputs")
+  let cache ← match fieldD j "store" .null with
+    | .null => pure none
+    | v => do pure (some (← jList (jPair jNat jRat) v))
+  let parallel ← jBool (← field j "parallel")
+  let sched : Sched := { assign := ← jList jNat (fieldD j "assign" (.arr #[])), n := ← jNat (fieldD j "n" (.num 1)),
+                         timedOut := ← jList jNat (fieldD j "timed_out" (.arr #[])) }
+  let fn : Rat → Except Err Rat := fun x => if x < 0 then .error (.valueError "toy_fn") else .ok (2 * x)
+  let (r, st) := parallelise fn inputs cache parallel sched
+  let pairsJ (l : List (Nat × Rat)) : Json := .arr (l.map fun kv => Json.arr #[natJ kv.1, ratJ kv.2]).toArray
+  pure (Json.mkObj [("res", resJ pairsJ r),
+                    ("store", match st with | none => .null | some l => pairsJ l)])
+
+/-- `"kind": "mcscan"`: `mc.scan_steady_state` -/
+def runMcScan (j : Json) : Except String (Except Err Json) := do
+  let c0 ← jContent (← field j "content")
+  let w := ssWorker (← jCfg (← field j "cfg"))
+  let samples ← jList (jPair jNat jRow) (← field j "rows")
+  let inner ← jList (jPair jNat jRow) (← field j "inner")
+  let assign ← jList jNat (fieldD j "assign" (.arr #[]))
+  let n ← jNat (fieldD j "n" (.num 1))
+  let y0 ← match fieldD j "y0" .null with
+    | .null => pure none
+    | v => do pure (some (← jRow v))
+  pure do
+    let c ← match y0 with
+      | none => pure c0
+      | some kv => updateVars c0 kv
+    let res ← mcScan shippedCopyFirst assign n w inner c samples
+    let rows := res.flatMap fun (lv : Label × List (List Rat × View)) =>
+      lv.2.map fun (kv : List Rat × View) => Json.arr #[natJ lv.1, .arr (kv.1.map ratJ).toArray, viewJ kv.2]
+    pure (Json.mkObj [("rows", .arr rows.toArray), ("caller", stateJ c)])
+
 def handle (j : Json) : Except String Json := do
+  if (← jStr (fieldD j "what" (.str "scan"))) == "parallelise" then return (← runPar j)
+  if (← jStr (fieldD j "kind" (.str ""))) == "mcscan" then return resJ id (← runMcScan j)
   pure (resJ id (← runScan j))
 
 end Driver.H_c09
